@@ -198,7 +198,7 @@ impl Prop for C05 {
         if c.hash_seed != 0 { out.push(DlCase { hash_seed: 0, ..c.clone() }); }
         out
     }
-    fn rule(&self) -> String { "A case is one safe program (facts + rules) executed by each of the four strategies under a baseline and several perturbations (simulated pool size/splits/job order/reduce tree, fact and rule insertion order, hash seed); every execution is compared with the reference least (or stratified) model and run a second time. Non-trivial = the model contains at least 2 derived facts; distinct = hash of (fact set, rules).".into() }
+    fn rule(&self) -> String { "A case is one safe program (facts + rules) executed by each of the four strategies under a baseline and several perturbations (simulated pool size/splits/job order/reduce tree, fact and rule insertion order, hash seed); every execution is compared with the reference least (or stratified) model and run a second time. Non-trivial = the model contains at least 2 derived facts; distinct = hash of (fact set, rules). One case in forty is a 100-300 edge reachability chain (as many fixpoint rounds as edges); a quarter of the cases offer a rule with unsafe negation through try_add_rule, which must be refused and take no part; pools up to 200 workers.".into() }
     fn assumptions(&self) -> Vec<String> { vec![
         "reference model: naive fixpoint on lexical triples, numeric filters as evaluate_filters (non-numeric parses as 0)".into(),
         "negation is compared only on the provenance strategy, the one strategy that implements a negative stratum; the negative rules form one top stratum whose conclusions feed no premise".into(),
@@ -359,7 +359,7 @@ impl Prop for C19 {
         for h in shrink_vec(&c.history) { out.push(RepCase { history: h, ..c.clone() }); }
         out
     }
-    fn rule(&self) -> String { "A case is one (fact set <= 12 facts, constraint set, goal pattern) executed under 8 (quick) or 32 (thorough) simulator-chosen hash seeds, each on its own OS thread; query_with_repairs is compared with the intersection of the goal's answers over all subset-maximal consistent subsets (enumeration of all subsets), and repair-aware materialisation must end consistent. Non-trivial = at least two maximal repairs; distinct = hash of (facts, constraints, goal).".into() }
+    fn rule(&self) -> String { "A case is one (fact set <= 12 facts, constraint set, goal pattern) executed under 8 (quick) or 32 (thorough) simulator-chosen hash seeds, each on its own OS thread; query_with_repairs is compared with the intersection of the goal's answers over all subset-maximal consistent subsets (enumeration of all subsets), and repair-aware materialisation must end consistent. Non-trivial = at least two maximal repairs; distinct = hash of (facts, constraints, goal). A third of the small cases add a history on ONE reasoner (repair-aware / ordinary materialisation, additions, queries): each query is judged against the maximal repairs of the facts the store holds at that moment, each repair-aware materialisation must end consistent.".into() }
     fn assumptions(&self) -> Vec<String> { vec!["constraints are premise-only rules; a set violates a constraint iff the premise join is non-empty (as violates_constraints does)".into(), "run-to-run variation is modelled as variation of std's per-thread hash keys, which the simulator owns through the getrandom symbol".into()] }
     fn real_vs_stub(&self) -> serde_json::Value { serde_json::json!({"real": ["Reasoner::{query_with_repairs, compute_repairs, violates_constraints, infer_new_facts_semi_naive_with_repairs}"], "simulated": ["std RandomState keys per execution (getrandom interposer)"], "not_run": []}) }
 }
@@ -535,7 +535,7 @@ impl Prop for C12 {
         if c.hash_seed != 0 { out.push(SdsCase { hash_seed: 0, ..c.clone() }); }
         out
     }
-    fn rule(&self) -> String { "A case is one window-consistent stream history over 2-3 simulated windows (+ optional static graph) with an increasing sequence of evaluation times chosen by the simulated clock (dense, sparse, jumping past every expiry); at every evaluation incremental_sds_plus is fed the carried state and compared, per component, fact by fact and expiry by expiry, with a from-scratch reference least model over the alive facts with the expiry lattice; naive_sds_plus must give the same fact sets. Non-trivial = at least 3 evaluation steps and a non-empty final materialisation; distinct = hash of (rules, steps, windows).".into() }
+    fn rule(&self) -> String { "A case is one window-consistent stream history over 2-3 simulated windows (+ optional static graph) with an increasing sequence of evaluation times chosen by the simulated clock (dense, sparse, jumping past every expiry); at every evaluation incremental_sds_plus is fed the carried state and compared, per component, fact by fact and expiry by expiry, with a from-scratch reference least model over the alive facts with the expiry lattice; naive_sds_plus must give the same fact sets. Non-trivial = at least 3 evaluation steps and a non-empty final materialisation; distinct = hash of (rules, steps, windows). A third of the cases put rule heads on predicates of input windows (a fact both listed and derived); one case in ten renews the source of a 5-10 item chain under a recursive rule (more tag-only fixpoint rounds than rules).".into() }
     fn assumptions(&self) -> Vec<String> { vec!["window contents are built as the quantifier states: a triple is listed once with its latest arrival and stays listed until event_time + alpha <= t".into(), "rule conclusions lie in an output component or (a third of the cases) on a predicate of an input window; component IRIs may be nested but local names contain no '/'".into()] }
     fn real_vs_stub(&self) -> serde_json::Value { serde_json::json!({"real": ["datalog::reasoning::materialisation::cross_window_incremental::incremental_sds_plus", "cross_window_naive::naive_sds_plus", "cross_window_sds::translate_sds_to_datalog", "provenance_semi_naive (ExpirationProvenance)"], "simulated": ["stream arrival times and evaluation clock", "window contents (simulated windows; the real CSPARQLWindow is exercised by C09-C11)", "rayon (sim-rayon)", "hash keys"], "not_run": ["RSPEngine cross-window wiring (build_cross_window_sds)"]}) }
 }
